@@ -58,7 +58,10 @@ fn main() {
 		"C08" => props::c08::run(&ctx, &mut rep),
 		"C04" => props::c04::run(&ctx, &mut rep),
 		"C05" => props::c05::run(&ctx, &mut rep),
+		"C06" => props::c06::run(&ctx, &mut rep),
 		"C07" => props::c07::run(&ctx, &mut rep),
+		"C09" => props::c09::run(&ctx, &mut rep),
+		"C14" => props::c14::run(&ctx, &mut rep),
 		"C15" => props::c15::run(&ctx, &mut rep),
 		"C19" => props::c19::run(&ctx, &mut rep),
 		_ => {
